@@ -42,6 +42,7 @@ EXPLANATION = (
     "(Y5, sharing) each proxy location gets its own ProxyHandler (none is kept in a container). (Y6) the proxy's client sends the joined URL with path and query as given (C19.N1-N3). "
     "(Y5, fresh) the handler registered for a location is built in that iteration from that location. "
     "(Y7) the proxy handler writes no attribute of self outside __init__."
+    " (Y8) stateless client: the proxy's shared GeminiClient remembers nothing between fetches (no remembered redirects, no target cache)."
 )
 
 PROXY = "server.proxy:ProxyHandler"
@@ -401,5 +402,8 @@ def run(chk: Check) -> None:
     from .c19 import wire_fidelity
 
     wire_fidelity(chk, "Y6", "the proxy's client puts the joined URL on the wire with path and query as given: normalisation does not rewrite them (= C19.N1-N3)")
+    from .common import client_stateless
+
+    client_stateless(chk, "Y8", "the proxy shares one client per location, so a remembered redirect / cached target makes a later request contact another server, or another URL, than the one the handler built")
     chk.trusted = ["CPython ast parser", "engine CFG / abstract string domain", "urllib.parse: with an authority, the path is empty or starts with '/'"]
     chk.assumptions = ["how parse_url re-parses the joined string for exotic hosts is not decided (IPv6 upstreams rely on C19.N1)"]
